@@ -309,7 +309,16 @@ func scenarioC12(c *hlib.RunCtx) *hlib.Violation {
 		case 4: // one unapproved item
 			if len(r.Programs) > 0 {
 				p := r.Programs[t.Draw(len(r.Programs))]
-				switch t.Draw(7) {
+				switch t.Draw(10) {
+				case 7:
+					p.Counters["crash/crash\nmain.main:+1,+0x1"] = 1 // a stack-shaped key among the counters
+				case 8:
+					p.Stacks["\nmain.main:+1,+0x1"] = 1 // a stack whose first line is empty
+				case 9:
+					// values are not the server's business: zero, negative, the largest
+					for k := range p.Counters {
+						p.Counters[k] = []int64{0, -1, 1<<63 - 1, -1 << 63}[t.Draw(4)]
+					}
 				case 0:
 					p.Program += "x"
 				case 1:
